@@ -429,17 +429,18 @@ Definition diff_listeners_added (k : lkind) (my other : gmap N listener) : list 
   flat_map (fun al : N * listener =>
               RAddListener k (fst al) (snd al)
               :: (if l_active (snd al) then [RActivate (proxy_of k) (fst al)] else [])) (keys_not_in other my).
+Definition common_chunk (k : lkind) (other : gmap N listener) (a : N) (l : listener) : list request :=
+  match other !! a with
+  | None => []
+  | Some their =>
+    (if bool_decide (l = their) then []
+     else [RRemoveListener (proxy_of k) a;
+           RAddListener k a (Listener false (l_fields their) (l_rest their))]
+          ++ (if l_active their then [RActivate (proxy_of k) a] else []))
+    ++ (if l_active l && negb (l_active their) then [RDeactivate (proxy_of k) a] else [])
+  end.
 Definition diff_listeners_common (k : lkind) (my other : gmap N listener) : list request :=
-  flat_map (fun al : N * listener =>
-              match other !! fst al with
-              | None => []
-              | Some their =>
-                (if bool_decide (snd al = their) then []
-                 else [RRemoveListener (proxy_of k) (fst al);
-                       RAddListener k (fst al) (Listener false (l_fields their) (l_rest their))]
-                      ++ (if l_active their then [RActivate (proxy_of k) (fst al)] else []))
-                ++ (if l_active (snd al) && negb (l_active their) then [RDeactivate (proxy_of k) (fst al)] else [])
-              end) (map_to_list my).
+  flat_map (fun al : N * listener => common_chunk k other (fst al) (snd al)) (map_to_list my).
 Definition diff_late_activate (k : lkind) (my other : gmap N listener) : list request :=
   flat_map (fun al : N * listener => if l_active (snd al) then [RActivate (proxy_of k) (fst al)] else [])
            (keys_not_in other my).
@@ -465,12 +466,13 @@ Definition diff_backends (my other : gmap N (list backend)) : list request :=
               match r with DAdded => ad | DRemoved => rm | DChanged => rm ++ ad end)
            (diff_map N3_cmp (fun a b : backend => bool_decide (a = b)) (backend_entries my) (backend_entries other)).
 
+Definition cluster_chunk (other : gmap N cluster) (k : N) (r : dres) : list request :=
+  match r with
+  | DRemoved => [RRemoveCluster k]
+  | _ => match other !! k with Some c => [RAddCluster k c] | None => [] end
+  end.
 Definition diff_clusters (my other : gmap N cluster) : list request :=
-  flat_map (fun kr : N * dres =>
-              match snd kr with
-              | DRemoved => [RRemoveCluster (fst kr)]
-              | _ => match other !! fst kr with Some c => [RAddCluster (fst kr) c] | None => [] end
-              end)
+  flat_map (fun kr : N * dres => cluster_chunk other (fst kr) (snd kr))
            (diff_map N.compare (fun a b : cluster => bool_decide (a = b)) (sorted_entries my) (sorted_entries other)).
 
 (** fronts: HashSet of (key, value) pairs; removed then added *)
